@@ -52,6 +52,7 @@ type run struct {
 	dryAllocVar *smt.Term // the allocation counter at the head of the loop body in the second dry run
 	axiomFacts  map[*smt.Term][]string // quantified axiom facts -> the spec functions they speak about
 	appMemo     map[*smt.Term][]string
+	usedSites   map[string]bool // "callee.K" site assertions that were reached during generation
 	depth    int
 	safe     bool
 	autoTransparent map[string]bool
